@@ -40,7 +40,7 @@ CHUNK = 10
 
 PROFILE = H.Profile('c06', nops=(3, 20), final_restart=False,
                     weights={'restart': 0, 'add_boot_file': 2, 'add_eltorito': 4, 'add_isohybrid': 2, 'dup_pvd': 0.3, 'rm_file': 9, 'rm_dir': 6, 'rm_link': 6,
-                             're_add': 5, 'hide': 7})
+                             're_add': 9, 'hide': 7})
 
 EXTRA_KINDS = ('force', 'get_record', 'list_children', 'walk_start', 'read_file', 'extract', 'write_scratch', 'has')
 
@@ -125,7 +125,7 @@ def generate(seed, tier='quick'):
             rep['extras'].append(ex)
         # pattern: look an entry up by its Rock Ridge path, let the history remove it and add the same path again, then
         # (after force_consistency) look it up once more - a lookup cache that outlives the removal answers with the dead record
-        if r.random() < 0.4:
+        if r.random() < 0.8:
             for j, op in enumerate(plan['ops']):
                 if op.get('_readd') and op.get('iso') and op.get('rr') and states[j].rr:
                     rp_parent = rr_path(states[j], M.split(op['iso'])[0])
@@ -138,6 +138,7 @@ def generate(seed, tier='quick'):
                     rep['extras'].append({'gap': first, 'kind': 'get_record', 'ns': 'rr', 'path': rp})
                     rep['extras'].append({'gap': len(plan['ops']), 'kind': 'force'})
                     rep['extras'].append({'gap': len(plan['ops']), 'kind': 'get_record', 'ns': 'rr', 'path': rp})
+                    plan['env']['cache'] = 256      # a memo too small to remember the first lookup would hide what this is after
                     break
         rep['extras'].sort(key=lambda e: e['gap'])
         reps.append(rep)
@@ -297,6 +298,17 @@ def collect_records(d):
                 out[(ns, p)] = (n.kind, r.extent_location(), r.get_data_length())
             except Exception:
                 continue
+    if m.rr:
+        # the same records through their Rock Ridge paths (a lookup route with a memo of its own)
+        for p, n in m.iter_ns('iso'):
+            rp = rr_path(m, p)
+            if rp is None:
+                continue
+            try:
+                r = iso.get_record(rr_path=rp)
+                out[('rr', p)] = (n.kind, r.extent_location(), r.get_data_length())
+            except Exception:
+                continue
     return out
 
 
@@ -309,15 +321,15 @@ def check_records(ctx, d, recs, data):
     ctx.probes['records_vs_decoders_checked'] += 1
     u = dec_udf.decode(data) if 'udf' in m.roots else None
     for (ns, p), (kind, ext, ln) in sorted(recs.items()):
-        if ns in ('iso', 'joliet'):
-            t = img.trees.get(ns)
-            rec = t.entries.get(d.model.phys(ns, p)) if t is not None else None
+        if ns in ('iso', 'joliet', 'rr'):
+            t = img.trees.get('iso' if ns == 'rr' else ns)
+            rec = t.entries.get(d.model.phys('iso' if ns == 'rr' else ns, p)) if t is not None else None
             if rec is None or kind == 'symlink' or rec.parts:
                 continue
             if kind == 'file' and rec.size == 0:
                 continue
             if (ext, ln) != (rec.extent, rec.size):
-                ctx.violate(('record-query-vs-image', ns, kind), '%s: get_record said extent %d length %d, the image written next has extent %d length %d' % (
+                ctx.violate(('record-query-vs-image', ns, kind), '%s: get_record said extent %s length %s, the image written next has extent %s length %s' % (
                     p, ext, ln, rec.extent, rec.size), fatal=False)
                 return
         elif u is not None:
